@@ -7,10 +7,25 @@ from props.c03 import *  # noqa
 K = []
 
 
+FIXED = {  # finding -> fix commit in the repository (round 2)
+    "pp-if-32bit": "3499036", "str-range-rev-neg": "56370ef", "lv-range-const-rev": "fa775d5",
+    "fold-add-zero-real": "0455d4e", "zero-minus-neg": "d913250"}
+ROOT = os.path.dirname(os.path.dirname(os.path.abspath(__file__)))
+
+
 def known(kid, why, what, fns, same=None, defines=()):
     c = make_case("k", fns, same=same, defines=defines)
-    K.append({"property": "C03", "id": kid, "status": "open", "signature": r"^bad spec-mismatch why=%s fn=" % why,
-              "input": c.lines, "what": what})
+    d = {"property": "C03", "id": kid, "status": "open", "signature": r"^bad spec-mismatch why=%s fn=" % why,
+         "input": c.lines, "what": what}
+    if why in FIXED:
+        # repaired: the witness moves to the corpus (replayed first on every run, must pass) and the record is kept as fixed
+        d["status"] = "fixed"
+        d["commit"] = FIXED[why]
+        del d["input"]
+        os.makedirs(os.path.join(ROOT, "corpus", "C03"), exist_ok=True)
+        with open(os.path.join(ROOT, "corpus", "C03", "fixed-%s.case" % why), "w") as f:
+            f.write("\n".join(c.lines) + "\n")
+    K.append(d)
 
 
 known("C03-num-opeq-real", "num-opeq-real",
@@ -66,7 +81,12 @@ known("C03-zero-minus-neg", "zero-minus-neg",
       [[("expr", ("asg", L(LX), Fl(0.0))), ("ret", ("bin", "sub", I(0), L(LX)))],
        [("expr", ("asg", L(A), Fl(0.0))), ("expr", ("asg", L(B), I(0))), ("ret", ("bin", "sub", L(B), L(A)))]])
 
-out = os.path.join(os.path.dirname(os.path.dirname(os.path.abspath(__file__))), "known", "C03.jsonl")
+# one corpus case per defect repaired in round 1 (the deterministic boundary programs of the plugin)
+for bc in PROP.boundary():
+    with open(os.path.join(ROOT, "corpus", "C03", "fixed-r1-%s.case" % bc.id[2:]), "w") as f:
+        f.write("\n".join(bc.lines) + "\n")
+
+out = os.path.join(ROOT, "known", "C03.jsonl")
 with open(out, "w") as f:
     for k in K:
         f.write(json.dumps(k) + "\n")
